@@ -3,8 +3,8 @@
 import json, os, shutil, subprocess, sys
 V = os.path.dirname(os.path.dirname(os.path.abspath(__file__)))
 pid = sys.argv[1]
-rnd = 7 if '--round7' in sys.argv else 6 if '--round6' in sys.argv else 5 if '--round5' in sys.argv else 4 if '--round4' in sys.argv else (3 if '--round3' in sys.argv else (2 if '--round2' in sys.argv else 1))
-src = {1: '/tmp/seed_%s_out', 2: '/tmp/seed2_%s_out', 3: '/tmp/seed3_%s_out', 4: '/tmp/seed4_%s_out', 5: '/tmp/seed5_%s_out', 6: '/tmp/seed6_%s_out', 7: '/tmp/seed7_%s_out'}[rnd] % pid
+rnd = 8 if '--round8' in sys.argv else 7 if '--round7' in sys.argv else 6 if '--round6' in sys.argv else 5 if '--round5' in sys.argv else 4 if '--round4' in sys.argv else (3 if '--round3' in sys.argv else (2 if '--round2' in sys.argv else 1))
+src = {1: '/tmp/seed_%s_out', 2: '/tmp/seed2_%s_out', 3: '/tmp/seed3_%s_out', 4: '/tmp/seed4_%s_out', 5: '/tmp/seed5_%s_out', 6: '/tmp/seed6_%s_out', 7: '/tmp/seed7_%s_out', 8: '/tmp/seed8_%s_out'}[rnd] % pid
 for i in (1, 2):
     if not os.path.exists(os.path.join(src, 'patch%d.diff' % i)):
         continue
@@ -19,18 +19,18 @@ for i in (1, 2):
     meta['property'] = pid
     meta['round'] = rnd
     json.dump(meta, open(os.path.join(d, 'meta.json'), 'w'), indent=1)
-    r = subprocess.run([sys.executable, os.path.join(V, 'tools', 'try_seed.py'), d] + [a for a in sys.argv[2:] if a not in ('--round2', '--round3', '--round4', '--round5', '--round6', '--round7')], capture_output=True, text=True)
+    r = subprocess.run([sys.executable, os.path.join(V, 'tools', 'try_seed.py'), d] + [a for a in sys.argv[2:] if a not in ('--round2', '--round3', '--round4', '--round5', '--round6', '--round7', '--round8')], capture_output=True, text=True)
     out = r.stdout
     try:
         res = json.loads(out[:out.rindex('}') + 1])
     except Exception:
         res = {'raw': out[-2000:], 'err': r.stderr[-2000:]}
-    if rnd in (5, 6, 7) and os.path.exists('/tmp/dev%d_first.log' % rnd):
+    if rnd in (5, 6, 7, 8) and os.path.exists('/tmp/dev%d_first.log' % rnd):
         for ln in open('/tmp/dev%d_first.log' % rnd):
             w = ln.split()
             if len(w) == 4 and w[0] == pid and w[1] == 'patch%d' % i:
                 meta['detected_at_first_try'] = [pid] if not w[3].endswith('=0') else []
-                meta['first_try_note'] = 'measured with the checks as they stood before round %d (commit %s), seed 0, in a scratch copy' % (rnd, {5: '003b511', 6: 'b8e99b1', 7: 'cee337a'}[rnd])
+                meta['first_try_note'] = 'measured with the checks as they stood before round %d (commit %s), seed 0, in a scratch copy' % (rnd, {5: '003b511', 6: 'b8e99b1', 7: 'cee337a', 8: 'b3c4562'}[rnd])
     meta['what_i_ran'] = 'tools/try_seed.py %s %s' % (os.path.relpath(d, V), ' '.join(sys.argv[2:]))
     meta['confirmation'] = {k: res.get(k) for k in ('applies', 'tests_pass_with_change', 'demo_with_change_exit', 'demo_without_change_exit', 'confirmed')}
     meta['checks'] = res.get('checks')
